@@ -44,6 +44,7 @@ enum Op {
     Silence { client: usize, ticks: u32 },
     SetLimit { to: usize },
     Forge { client: usize, to_server: bool, how: &'static str },
+    Quit { client: usize },
 }
 
 struct W {
@@ -90,6 +91,22 @@ impl W {
                 }
             }
         }
+    }
+
+    /// The server gives up a session only through a reported event (ClientDisconnected from a disconnect packet or from
+    /// update_client): a session the history knows as held, with no such event since, is still in the table under its id and address.
+    fn held_sessions_present(&self) -> Outcome {
+        let s = &self.nw.servers[0].server;
+        for (i, c) in self.cl.iter().enumerate() {
+            let id = self.nw.clients[i].client_id;
+            if c.srv_last.is_some() && s.client_addr(id) != Some(self.nw.clients[i].addr) {
+                return Err(Fail::new(
+                    "session_vanished_without_event",
+                    format!("the server no longer holds the session of client {i} (id {id}) although it reported neither a disconnect packet nor a timeout for it; connected ids: {:?}", s.clients_id()),
+                ));
+            }
+        }
+        Ok(())
     }
 
     /// A datagram from client c reaches the server.
@@ -371,7 +388,7 @@ impl W {
             }
         }
         self.flags();
-        Ok(())
+        self.held_sessions_present()
     }
 }
 
@@ -383,7 +400,7 @@ impl Property for C18 {
         "fault_enumeration"
     }
     fn rule(&self) -> String {
-        "A case = secure server with a client limit of 1-3 at construction, raised or lowered at run time in some cases; 1-4 honest clients on distinct addresses spawned at any time, token timeouts 1-15 s or disabled, 1-3 server addresses of which a prefix is silent (the first of them, in some cases, a second server that answers the request with a challenge and is never heard of again); ticks of 10 ms - 1 s around the 250 ms send rate; per-datagram loss / delay by 1-3 ticks / duplication in both directions during and after the handshake, whole-silence periods per client, the server application streaming a payload to every connected client each tick in some cases (the client application then submits one per tick as well, whatever state its client is in), forged and replayed datagrams presented to both sides during silences, among them the replies of the handshake phase (denied, challenge) the server once addressed to a client, presented again once that client is connected; every other silent address is a dead port on the answering server's own ip. A model keeps, per side, the time of the last authentic and fresh packet accepted (genuine datagram delivered for the first time to the endpoint holding that session). Oracles at every update: a peer whose last accepted packet is older than its timeout is reported disconnected by that update (server: ClientDisconnected; client: ConnectionTimedOut), one whose accepted packets are not further apart is not; half-open sessions are gone after their token's expiry second; a denial only happens when the server was full or the id/address was taken during that attempt. Enumerated besides the histories: every address-list length 1-32 with every position of the single answering address (or none), four timeout / tick combinations, delivered at once, with the first datagram to the answering server lost, or with one tick of latency each way - the client must walk the list, connect at the answering address or end disconnected when the list is exhausted, within (timeout/tick + 3) updates per address. After faults stop: every client still connecting whose attempt never met a full server or a taken id/address, with an unexpired token and timeouts enabled when addresses are silent, is connected on both sides within sum(timeouts of the remaining silent addresses) + 8*max(250 ms, tick) + 1 s. Every session that is established on both sides and fresh (last accepted packet on both sides more than 1 s + 2 ticks younger than the timeout) when the faults stop is still established after timeout + 1.5 s of fault-free ticks. Non-trivial: a handshake datagram of at least two of the four kinds was lost, or a silent first address, a raised limit, or a forged packet during a silence occurred, and the heal obligation was evaluated. Distinct = hash of the decoded operation trace.".into()
+        "A case = secure server with a client limit of 1-3 at construction, raised or lowered at run time in some cases; 1-4 honest clients on distinct addresses spawned at any time, token timeouts 1-15 s or disabled, 1-3 server addresses of which a prefix is silent (the first of them, in some cases, a second server that answers the request with a challenge and is never heard of again); ticks of 10 ms - 1 s around the 250 ms send rate; per-datagram loss / delay by 1-3 ticks / duplication in both directions during and after the handshake, whole-silence periods per client, the server application streaming a payload to every connected client each tick in some cases (the client application then submits one per tick as well, whatever state its client is in), forged and replayed datagrams presented to both sides during silences, among them the replies of the handshake phase (denied, challenge) the server once addressed to a client, presented again once that client is connected; connected clients leave by their own disconnect packet (which travels, and may be lost, like any other datagram) while up to three other sessions go on - a session the server reported neither a disconnect packet nor a timeout for is still in its table; every other silent address is a dead port on the answering server's own ip. A model keeps, per side, the time of the last authentic and fresh packet accepted (genuine datagram delivered for the first time to the endpoint holding that session). Oracles at every update: a peer whose last accepted packet is older than its timeout is reported disconnected by that update (server: ClientDisconnected; client: ConnectionTimedOut), one whose accepted packets are not further apart is not; half-open sessions are gone after their token's expiry second; a denial only happens when the server was full or the id/address was taken during that attempt. Enumerated besides the histories: every address-list length 1-32 with every position of the single answering address (or none), four timeout / tick combinations, delivered at once, with the first datagram to the answering server lost, or with one tick of latency each way - the client must walk the list, connect at the answering address or end disconnected when the list is exhausted, within (timeout/tick + 3) updates per address. After faults stop: every client still connecting whose attempt never met a full server or a taken id/address, with an unexpired token and timeouts enabled when addresses are silent, is connected on both sides within sum(timeouts of the remaining silent addresses) + 8*max(250 ms, tick) + 1 s. Every session that is established on both sides and fresh (last accepted packet on both sides more than 1 s + 2 ticks younger than the timeout) when the faults stop is still established after timeout + 1.5 s of fault-free ticks. Non-trivial: a handshake datagram of at least two of the four kinds was lost, or a silent first address, a raised limit, or a forged packet during a silence occurred, and the heal obligation was evaluated. Distinct = hash of the decoded operation trace.".into()
     }
     fn assumptions(&self) -> Vec<String> {
         vec![
@@ -396,7 +413,7 @@ impl Property for C18 {
         PbtCfg { cases: tier.pick(200_000, 4_000_000), max_len: tier.pick(500, 1600), shrink_ms: 120_000 }
     }
     fn required_labels(&self) -> Vec<&'static str> {
-        vec!["lost_request", "lost_challenge", "lost_response", "lost_keepalive", "silent_first_address", "limit_raised", "limit_lowered", "forged_in_silence", "server_timeout", "client_timeout", "heal_obligation", "streaming", "timeouts_disabled", "challenge_then_silent_address", "address_list_walked", "address_list_exhausted", "stale_handshake_reply", "stale_denied_at_connected_client", "survivor_obligation"]
+        vec!["lost_request", "lost_challenge", "lost_response", "lost_keepalive", "silent_first_address", "limit_raised", "limit_lowered", "forged_in_silence", "server_timeout", "client_timeout", "heal_obligation", "streaming", "timeouts_disabled", "challenge_then_silent_address", "address_list_walked", "address_list_exhausted", "stale_handshake_reply", "stale_denied_at_connected_client", "survivor_obligation", "client_quit", "client_quit_among_three"]
     }
     fn enums(&self, _tier: Tier) -> Vec<(&'static str, u64)> {
         // every address-list length 1..=32 x every position of the one answering address (or none) x 4 timeout / tick combinations
@@ -555,7 +572,7 @@ impl Property for C18 {
         w.flags();
         while !ctx.src.exhausted() && ops < max_ops {
             ops += 1;
-            let op = match ctx.src.weighted(&[60, 5, 6, 4, 8]) {
+            let op = match ctx.src.weighted(&[60, 5, 6, 4, 8, 3]) {
                 0 => {
                     let ms = ctx.src.pick(&[100u64, 10, 50, 249, 250, 251, 500, 1000]);
                     last_dt = ms;
@@ -588,6 +605,23 @@ impl Property for C18 {
                     w.limit = to;
                     w.flags();
                     Op::SetLimit { to }
+                }
+                5 => {
+                    // the application of a connected client leaves: its disconnect datagram travels like any other (when it is lost the
+                    // server runs into the timeout); the sessions of the other clients, in whichever slots they sit, are not touched
+                    let c = ctx.src.below(w.cl.len());
+                    if !w.nw.clients[c].client.is_connected() {
+                        continue;
+                    }
+                    if let Some(did) = w.nw.client_disconnect(c) {
+                        w.enqueue_up(ctx, c, did);
+                    }
+                    w.cl[c].cli_last = None;
+                    ctx.label("client_quit");
+                    if w.cl.iter().filter(|o| o.srv_last.is_some()).count() >= 3 {
+                        ctx.label("client_quit_among_three");
+                    }
+                    Op::Quit { client: c }
                 }
                 _ => {
                     // forged or replayed datagrams: they must not postpone any timeout (the model ignores them)
